@@ -445,6 +445,28 @@ def extra_instances(ctx):
             D(*batch, 3, 2), g("Toeplitz", batch=batch, m=3)]}, "r": D(*batch, 5, 2)}))
         out.append(("x|BlockDiag(Cat-batch)|%s" % batch, {"cls": "BlockDiag", "block_dim": -3, "base": {
             "cls": "Cat", "dim": -3, "ops": [D(*batch, 1, 2, 2), g("Toeplitz", batch=batch + [2], m=2)]}}))
+        # nestings that take a class-conditional shortcut in _diagonal / _getitem (isinstance tests on the children):
+        # Interpolated over a Root with a dense root (own _diagonal), with EQUAL interpolation indices but different
+        # weights on the two sides, with different indices, and symmetric; Root over a non-dense root; the three
+        # branches of MatmulLinearOperator._diagonal (Dense x Dense, a Diag factor on either side, general)
+        nb = int(torch.tensor(batch + [1]).prod())
+        li = {"shape": batch + [4, 2], "data": [rng.randrange(3) for _ in range(nb * 8)], "long": True}
+        ri = {"shape": batch + [4, 2], "data": [rng.randrange(3) for _ in range(nb * 8)], "long": True}
+        lv, rv = ob.rand_t(rng, batch + [4, 2], -2, 2, nonzero=True), ob.rand_t(rng, batch + [4, 2], -2, 2, nonzero=True)
+        if lv["data"] == rv["data"]:
+            rv["data"][0] = rv["data"][0] + 1
+        root = g("Root", batch=batch, m=3)
+        out.append(("x|Interp(Root)-same-idx-diff-w|%s" % batch, {"cls": "Interpolated", "base": root, "li": li, "lv": lv, "ri": li, "rv": rv}))
+        out.append(("x|Interp(Root)-diff-idx|%s" % batch, {"cls": "Interpolated", "base": root, "li": li, "lv": lv, "ri": ri, "rv": rv}))
+        out.append(("x|Interp(Root)-symmetric|%s" % batch, {"cls": "Interpolated", "base": root, "li": li, "lv": lv, "ri": li, "rv": lv}))
+        out.append(("x|Interp(Root(Dense-op))-same-idx|%s" % batch, {"cls": "Interpolated", "base": {"cls": "Root", "root": D(*batch, 3, 2)},
+                    "li": li, "lv": rv, "ri": li, "rv": lv}))
+        out.append(("x|Root(Toeplitz)|%s" % batch, {"cls": "Root", "root": g("Toeplitz", batch=batch, m=3)}))
+        out.append(("x|Matmul(Dense,Dense)sq|%s" % batch, {"cls": "Matmul", "l": D(*batch, 3, 2), "r": D(*batch, 2, 3)}))
+        out.append(("x|Matmul(Diag,Dense)|%s" % batch, {"cls": "Matmul", "l": g("Diag", batch=batch, m=3), "r": D(*batch, 3, 3)}))
+        out.append(("x|Matmul(Dense,Diag)|%s" % batch, {"cls": "Matmul", "l": D(*batch, 3, 3), "r": g("Diag", batch=batch, m=3)}))
+        out.append(("x|Matmul(Toeplitz,Toeplitz)|%s" % batch, {"cls": "Matmul", "l": g("Toeplitz", batch=batch, m=3),
+                    "r": g("Toeplitz", batch=batch, m=3)}))
     # parameters / children whose batch shape differs from the operator's batch shape
     out.append(("x|BatchRepeat([3]->[2,3])", {"cls": "BatchRepeat", "base": D(3, 2, 3), "rep": [2, 1]}))
     out.append(("x|BatchRepeat([2]->[4])", {"cls": "BatchRepeat", "base": g("Toeplitz", batch=[2], m=3), "rep": [2]}))
@@ -520,14 +542,47 @@ def e2e_rows(ctx, nd, inst_no):
     if ctx.quick:
         ca = ix.covering_array(nd)
         step = {2: 4, 3: 3, 4: 4}.get(nd, 4)
-        return [(i, r) for i, r in enumerate(ca) if i % step == inst_no % step]
+        rows = [(i, r) for i, r in enumerate(ca) if i % step == inst_no % step]
+        ab = absorbed_rows(nd)
+        return rows + [(len(ca) + i, r) for i, r in enumerate(ab) if i % 4 == inst_no % 4]
     if nd <= 2:
         return list(enumerate(ix.all_tuples(nd)))
     rows = list(enumerate(ix.covering_array(nd)))
+    rows += [(len(rows) + i, r) for i, r in enumerate(absorbed_rows(nd))]
     if nd == 3:
         allt = ix.all_tuples(3)
         st = random.Random(1000 + inst_no)             # grid, not values: independent of the run seed
         rows += [(len(rows) + j, allt[st.randrange(len(allt))]) for j in range(400)]
+    return rows
+
+
+_AB_CACHE = {}
+
+
+def absorbed_rows(nd):
+    """three-way cells of the ABSORBED path that a strength-2 covering array does not guarantee: a 1-d tensor index in a
+    batch position, a 1-d tensor index in one matrix position and every slice kind (resp. int kind) in the remaining
+    positions - the inputs on which _convert_indices_to_tensors turns slices into index tensors."""
+    if nd < 3:
+        return []
+    if nd in _AB_CACHE:
+        return _AB_CACHE[nd]
+    rows = []
+    others = [k for k in ix.SLICE_KINDS if k != "full"] + ["int_pos", "int_neg"]
+    for j, k in enumerate(others):
+        for tpos, kpos in ((nd - 1, nd - 2), (nd - 2, nd - 1)):
+            row = ["full"] * nd
+            row[(j + tpos) % (nd - 2)] = "t1"          # the batch position that carries the tensor rotates
+            row[tpos], row[kpos] = "t1", k
+            if nd >= 4:                                 # a second slice kind in the free batch position
+                free = [d for d in range(nd - 2) if row[d] == "full"]
+                row[free[0]] = others[(j + 3) % len(others)]
+            rows.append(tuple(row))
+        row = ["t1"] * nd                               # slice in a batch position, tensors in both matrix positions
+        row[j % (nd - 2)] = k
+        rows.append(tuple(row))
+    rows = [r for r in rows if ix.valid_kinds(r, nd)]
+    _AB_CACHE[nd] = rows
     return rows
 
 
@@ -792,6 +847,44 @@ def stage_perm(ctx, rng):
 
 # ------------------------------------------------------------------------------------------ run
 
+def triage_l2(ctx, m):
+    """A disagreement between a transcription of utils/getitem.py and the real function (layer L2) is triaged with the
+    independent oracle: the same index is applied to a DenseLinearOperator through the real __getitem__ and compared
+    with torch indexing of the dense tensor.  Returns True when a concrete failing input was reported."""
+    items, shape = m.get("items"), m.get("shape")
+    if not items or not shape or len(shape) < 2 or len(items) != len(shape):
+        return False
+    kinds = tuple(ix.classify(it, n) for it, n in zip(items, shape))
+    if not ix.valid_kinds(kinds, len(shape)):
+        return False               # outside the property's quantifier (a lone rank >= 2 tensor index)
+    n = 1
+    for x in shape:
+        n *= x
+    e = {"cls": "Dense", "t": {"shape": list(shape), "data": [(7 * i) % 23 - 11 for i in range(n)]}}
+    op = ob.build(e)
+    TD = rint(op.to_dense())
+    idx = ix.to_py(items, False)
+    exp = run_dense(TD, idx)
+    if exp[0] != "ok" or exp[1].numel() == 0:
+        return False               # torch rejects the index / an empty slice: outside the quantifier
+    hit = False
+    for dbg in (True, False):
+        r = run_index(op, idx, dbg)
+        fk = fail_kind(r, exp)
+        if fk is None:
+            continue
+        if fk == "unsupported":
+            fk = "raise:" + r[1]
+        cell, _ = cell_of(items, shape)
+        key = case_key(e, cell, fk, debug=dbg, attrs=path_attrs(e, items, shape))
+        if ctx.violation({"kind": "getitem-differs-from-dense", "layer": "L2-triage", "expr": e, "index": items, "bare": False,
+                          "debug": dbg, "shape": list(shape), "observed": obs_json(r), "expected": obs_json(exp),
+                          "index_shown": ix.show(items, False), "describe": ob.describe(e),
+                          "found_by": "model-implementation disagreement in %s" % m.get("fn")}, key=key):
+            hit = True
+    return hit
+
+
 def search_on_failure_factory(ctx):
     def search(info):
         # a proof obligation about the hand-written model broke: the implementation is searched with the
@@ -824,6 +917,7 @@ def run(ctx):
         t0 = time.time()
         # L2 / L3: the transcriptions of the library code against the real functions
         jobs = lib.Jobs()
+        lib.TRIAGE = triage_l2
         lst = [lib.stage_getitem_py(ctx, rng, jobs),
                lib.stage_front(ctx, rng, jobs, run_index, tlit_of, idx_lit, otensor_lit),
                lib.stage_classes(ctx, rng, jobs)]
